@@ -174,3 +174,185 @@ Proof.
     + cbn [step]. apply IH. destruct (conj P1 (conj P2 P3)) as [Q1 [Q2 Q3]]. split; [|split]; [exact Q1|exact Q2|exact Q3].
     + cbn [step]. apply IH. split; [|split]; [exact P1|exact P2|exact P3].
 Qed.
+
+(* ------------------------------------------------------------------ composition over nesting: the catalogue against a scoping environment *)
+(** a scoping environment: the declarations (and consistent uses) in view, innermost / most recent first; true = type *)
+Definition senv := list (N * bool).
+Fixpoint slook (e : senv) (n : N) : option bool :=
+  match e with [] => None | (m, b) :: e' => if N.eqb n m then Some b else slook e' n end.
+(** the items of a block, most recent first, as environment entries *)
+Fixpoint entries (l : list item) (acc : senv) : senv :=
+  match l with
+  | [] => acc
+  | IType n :: r => entries r ((n, true) :: acc)
+  | INon n :: r => entries r ((n, false) :: acc)
+  | _ :: r => entries r acc
+  end.
+
+Definition agrees (c : cat) (e : senv) : Prop :=
+  forall n, has (tys c) n = (match slook e n with Some true => true | _ => false end) /\
+            has (nts c) n = (match slook e n with Some false => true | _ => false end).
+
+Lemma slook_entries l : forall acc n,
+  (forall m, ment_t l m && ment_n l m = false) ->
+  slook (entries l acc) n = if ment_t l n then Some true else if ment_n l n then Some false else slook acc n.
+Proof.
+  induction l as [|it r IH]; intros acc n Hs; [reflexivity|].
+  assert (Hr : forall m, ment_t r m && ment_n r m = false).
+  { intros m. specialize (Hs m). destruct it; mmin Hs; try exact Hs.
+    - destruct (N.eqb n0 m); cbn in Hs; [destruct (ment_n r m); [discriminate|apply andb_false_r]|exact Hs].
+    - destruct (N.eqb n0 m); cbn in Hs; [rewrite andb_true_r in Hs; rewrite Hs; reflexivity|exact Hs]. }
+  destruct it as [m|m|b|i m]; cbn [entries]; mm; rewrite (IH _ n Hr); cbn [slook].
+  - specialize (Hs n). mmin Hs. destruct (N.eqb_spec m n) as [->|Hne].
+    + cbn [orb] in *. cbn in Hs. rewrite N.eqb_refl. destruct (ment_t r n); [reflexivity|]. rewrite Hs. reflexivity.
+    + cbn [orb]. destruct (N.eqb_spec n m); [congruence|]. reflexivity.
+  - specialize (Hs n). mmin Hs. destruct (N.eqb_spec m n) as [->|Hne].
+    + cbn [orb] in *. rewrite N.eqb_refl. rewrite andb_true_r in Hs. rewrite Hs. destruct (ment_n r n); reflexivity.
+    + cbn [orb]. destruct (N.eqb_spec n m); [congruence|]. reflexivity.
+  - reflexivity.
+  - reflexivity.
+Qed.
+
+(** a block keeps the catalogue in agreement with the scoping environment: its final catalogue
+    agrees with the enclosing environment extended by all of the block's own mentions *)
+Lemma block_agrees d l c e : pre d c l -> agrees c e -> agrees (final_of d c l) (entries l e).
+Proof.
+  intros Hp Ha n. destruct (final_char d l c Hp n) as [A B]. destruct Hp as [_ [_ P3]]. destruct (Ha n) as [A0 B0].
+  rewrite A, B, A0, B0, (slook_entries l e n P3). pose proof (P3 n) as Hn.
+  destruct (ment_t l n), (ment_n l n); cbn in *; try discriminate; split; try reflexivity;
+    destruct (slook e n) as [[|]|]; reflexivity.
+Qed.
+
+(** the decisions, read off an environment that agrees with the catalogue *)
+Definition reading (e : senv) (n : N) : decision :=
+  match slook e n with Some true => KeepType | Some false => KeepNonType | None => Inconclusive end.
+Lemma decide_agrees c e n : agrees c e -> decide_expr c n = reading e n /\ decide_stmt c n = reading e n.
+Proof.
+  intros Ha. destruct (Ha n) as [A B]. unfold decide_expr, decide_stmt, reading. rewrite A, B.
+  destruct (slook e n) as [[|]|]; split; reflexivity.
+Qed.
+
+(* ---- over arbitrary nesting *)
+Definition depth_le (d : nat) (c : cat) : Prop :=
+  (forall m k, depth_of (tys c) m = Some k -> k <= d) /\ (forall m k, depth_of (nts c) m = Some k -> k <= d).
+
+Lemma step_depth d c it : depth_le d c -> depth_le d (step d c it).
+Proof.
+  intros [A B]. destruct it as [n|n|b|i n]; cbn [step]; try (split; assumption).
+  - unfold use_type. pose proof (use_in_own (tys c) (nts c) d n) as Ho. pose proof (use_in_other (tys c) (nts c) d n) as Hx.
+    destruct (use_in (tys c) (nts c) d n) as [a b]. cbn [fst snd tys nts] in *. split; intros m k Hk.
+    + rewrite Ho in Hk. destruct (N.eqb m n); [destruct (depth_of (tys c) n) eqn:E; inversion Hk; subst; [eapply A; eauto|lia]|eapply A; eauto].
+    + rewrite Hx in Hk. destruct (N.eqb m n); [destruct (depth_of (nts c) n) as [k'|] eqn:E; [destruct (Nat.ltb k' d); inversion Hk; subst; eapply B; eauto|discriminate]|eapply B; eauto].
+  - unfold use_nontype. pose proof (use_in_own (nts c) (tys c) d n) as Ho. pose proof (use_in_other (nts c) (tys c) d n) as Hx.
+    destruct (use_in (nts c) (tys c) d n) as [a b]. cbn [fst snd tys nts] in *. split; intros m k Hk.
+    + rewrite Hx in Hk. destruct (N.eqb m n); [destruct (depth_of (tys c) n) as [k'|] eqn:E; [destruct (Nat.ltb k' d); inversion Hk; subst; eapply A; eauto|discriminate]|eapply A; eauto].
+    + rewrite Ho in Hk. destruct (N.eqb m n); [destruct (depth_of (nts c) n) eqn:E; inversion Hk; subst; [eapply B; eauto|lia]|eapply B; eauto].
+Qed.
+
+Lemma depth_le_S d c : depth_le d c -> depth_le (S d) c.
+Proof. intros [A B]. split; intros m k H; [specialize (A m k H)|specialize (B m k H)]; lia. Qed.
+
+(** one item's effect on the scoping environment *)
+Definition estep (e : senv) (it : item) : senv :=
+  match it with IType n => (n, true) :: e | INon n => (n, false) :: e | _ => e end.
+Lemma entries_estep l : forall e, entries l e = fold_left estep l e.
+Proof. induction l as [|[n|n|b|i n] r IH]; intros e; cbn [entries fold_left estep]; auto. Qed.
+
+(** a block mentions no name in both categories — at every level *)
+Fixpoint single (it : item) : Prop :=
+  match it with
+  | IBlock sub => (forall m, ment_t sub m && ment_n sub m = false) /\
+                  (fix all (l : list item) : Prop := match l with [] => True | x :: r => single x /\ all r end) sub
+  | _ => True
+  end.
+Fixpoint singles (l : list item) : Prop := match l with [] => True | x :: r => single x /\ singles r end.
+
+(** the specification's sites: same traversal, with scoping environments instead of catalogues *)
+Fixpoint spec_sites (ef e : senv) (it : item) : list (nat * N * senv) :=
+  match it with
+  | ISite id n => [(id, n, ef)]
+  | IBlock sub =>
+      let ef' := entries sub e in
+      (fix go (e' : senv) (l : list item) : list (nat * N * senv) :=
+         match l with
+         | [] => []
+         | x :: r => spec_sites ef' e' x ++ go (estep e' x) r
+         end) e sub
+  | _ => []
+  end.
+
+Definition site_ok (s : nat * N * cat) (s' : nat * N * senv) : Prop :=
+  fst (fst s) = fst (fst s') /\ snd (fst s) = snd (fst s') /\ agrees (snd s) (snd s').
+
+Section ItemInd.
+  Variable P : item -> Prop.
+  Hypothesis Ht : forall n, P (IType n).
+  Hypothesis Hn : forall n, P (INon n).
+  Hypothesis Hs : forall i n, P (ISite i n).
+  Hypothesis Hb : forall sub, Forall P sub -> P (IBlock sub).
+  Fixpoint item_ind' (it : item) : P it :=
+    match it with
+    | IType n => Ht n | INon n => Hn n | ISite i n => Hs i n
+    | IBlock sub => Hb sub ((fix go (l : list item) : Forall P l := match l with [] => Forall_nil P | x :: r => Forall_cons x (item_ind' x) (go r) end) sub)
+    end.
+End ItemInd.
+
+Lemma step_agrees d c e it : (match it with IType n | INon n => pre d c [it] | _ => True end) -> agrees c e -> agrees (step d c it) (estep e it).
+Proof.
+  intros Hp Ha. destruct it as [n|n|b|i n]; cbn [step estep]; try exact Ha.
+  - apply (block_agrees d [IType n] c e Hp Ha).
+  - apply (block_agrees d [INon n] c e Hp Ha).
+Qed.
+
+Lemma singles_all l : (fix all (l : list item) : Prop := match l with [] => True | x :: r => single x /\ all r end) l = singles l.
+Proof. induction l as [|x r IH]; cbn; [reflexivity|]. rewrite IH. reflexivity. Qed.
+
+Lemma ment_t_app a b m : ment_t (a ++ b) m = ment_t a m || ment_t b m.
+Proof. unfold ment_t. apply existsb_app. Qed.
+Lemma ment_n_app a b m : ment_n (a ++ b) m = ment_n a m || ment_n b m.
+Proof. unfold ment_n. apply existsb_app. Qed.
+
+Lemma final_depth d l : forall c, depth_le d c -> depth_le d (final_of d c l).
+Proof. unfold final_of. induction l as [|x r IH]; intros c H; [exact H|]. cbn [fold_left]. apply IH. apply step_depth. exact H. Qed.
+
+Lemma pre_of_depth d c l : depth_le d c -> (forall m, ment_t l m && ment_n l m = false) -> pre (S d) c l.
+Proof.
+  intros [A B] Hs. split; [|split]; [intros m k H; left; specialize (A m k H); lia|intros m k H; left; specialize (B m k H); lia|exact Hs].
+Qed.
+
+(** THE COMPOSITION: for every nesting of blocks in which no block mentions a name in both categories, every
+    site is decided with a catalogue that agrees with the scoping environment made of the enclosing blocks'
+    mentions up to the point of entry and ALL of its own block's mentions *)
+Lemma sites_agree : forall it d cf c ef e, agrees cf ef -> agrees c e -> depth_le d c -> single it ->
+  Forall2 site_ok (sites d cf c it) (spec_sites ef e it).
+Proof.
+  induction it using item_ind'; intros d cf c ef e Hcf Hc Hd Hs; cbn [sites spec_sites]; try constructor.
+  - unfold site_ok; cbn [fst snd]; split; [reflexivity|split; [reflexivity|exact Hcf]].
+  - constructor.
+  - (* a nested block *)
+    destruct Hs as [Hsc Hall]. rewrite singles_all in Hall.
+    set (cf' := final_of (S d) c sub). set (ef' := entries sub e).
+    assert (Hpre : pre (S d) c sub) by (apply pre_of_depth; assumption).
+    assert (Hcf' : agrees cf' ef') by (apply block_agrees; assumption).
+    (* the loop, generalised over the items already passed *)
+    assert (Loop : forall rest pre_items, sub = pre_items ++ rest ->
+              Forall2 site_ok
+                ((fix go (c' : cat) (l : list item) : list (nat * N * cat) :=
+                    match l with [] => [] | x :: r => sites (S d) cf' c' x ++ go (step (S d) c' x) r end) (final_of (S d) c pre_items) rest)
+                ((fix go (e' : senv) (l : list item) : list (nat * N * senv) :=
+                    match l with [] => [] | x :: r => spec_sites ef' e' x ++ go (estep e' x) r end) (entries pre_items e) rest)).
+    { induction rest as [|x r IHr]; intros pre_items Heq; [constructor|].
+      assert (Hin : In x sub) by (rewrite Heq; apply in_or_app; right; left; reflexivity).
+      assert (Hsp : forall m, ment_t pre_items m && ment_n pre_items m = false).
+      { intros m. specialize (Hsc m). rewrite Heq, ment_t_app, ment_n_app in Hsc.
+        destruct (ment_t pre_items m), (ment_n pre_items m); cbn in *; try reflexivity; try discriminate. }
+      assert (Hprep : pre (S d) c pre_items) by (apply pre_of_depth; assumption).
+      apply Forall2_app.
+      - rewrite Forall_forall in H. apply (H x Hin); [exact Hcf'|apply block_agrees; assumption|apply final_depth; apply depth_le_S; exact Hd|].
+        clear - Hall Hin. induction sub as [|y l IHl]; [destruct Hin|]. cbn in Hall. destruct Hall as [Hy Hl]. destruct Hin as [->|Hin]; [exact Hy|apply IHl; assumption].
+      - specialize (IHr (pre_items ++ [x])). rewrite <- app_assoc in IHr. specialize (IHr Heq).
+        unfold final_of in IHr. rewrite fold_left_app in IHr. cbn [fold_left] in IHr.
+        rewrite (entries_estep (pre_items ++ [x])), fold_left_app in IHr. cbn [fold_left] in IHr. rewrite <- entries_estep in IHr.
+        exact IHr. }
+    apply (Loop sub []). reflexivity.
+Qed.
